@@ -212,11 +212,11 @@ pub fn run(r: &mut Report, ctx: &Ctx) {
         r.section(
             "lattice-prefix",
             "every prefix length n of five streams, every variant: the 32 real finalizations obey the permissiveness lattice (Ok under o stays the identical Ok under every o' >= o; QUARTER == QUARTER|HALF) and report a length error exactly when the published classification of n says so; distinct by (variant,stream,n); non-trivial = all",
-            &format!("n in 0..={top} x 5 streams x 5 variants x 32 options"),
+            &format!("n in 0..={top} x 6 streams x 5 variants x 32 options"),
             true,
             |s| {
                 let streams = &streams;
-                s.acc = par_for(25, 1, |idx, acc| {
+                s.acc = par_for(5 * streams.len() as u64, 1, |idx, acc| {
                     let st = streams[(idx / 5) as usize];
                     let key = idx << 40;
                     match idx % 5 {
